@@ -501,6 +501,9 @@ def exc_annotations(repo, tier="quick"):
     cfi = repo.function("dialects:check_and_cast_types")
     ccfg, cfl = cfi.cfg, cfi.flow
     casts = [(call, nid) for call, nid in cfl.calls() if repo.resolve_call(cfi, call).kind == "dynamic"]
+    if not casts:
+        # the annotation called in place: param.annotation(value)
+        casts = [(call, nid) for call, nid in cfl.calls() if isinstance(call.func, ast.Attribute) and call.func.attr == "annotation" and len(call.args) == 1]
     need(casts, "anchor vanished: no dynamic cast call expected_type(value) in check_and_cast_types", cfi)
     for call, nid in casts:
         hs = [ccfg.nodes[d] for d, lab in ccfg.succ[nid] if lab == "exc"]
